@@ -6,7 +6,9 @@ package obs
 import (
 	"bytes"
 	"compress/flate"
+	"context"
 	"encoding/base64"
+	"errors"
 	"fmt"
 	"io"
 	"net/http"
@@ -29,6 +31,50 @@ type HTTPReq struct {
 	Headers     [][2]string `json:"headers,omitempty"`
 	ContentType string      `json:"content_type,omitempty"`
 	Body        string      `json:"body,omitempty"`
+	// Chunked: the body is sent with Transfer-Encoding: chunked, i.e. without announced length (ContentLength -1).
+	Chunked bool `json:"chunked,omitempty"`
+	// FailWriteAfter > 0: the connection to the user agent breaks after that many body bytes: the Write that crosses the
+	// limit writes the part that fits and returns an error, later writes fail at once.
+	FailWriteAfter int `json:"fail_write_after,omitempty"`
+}
+
+// Opt are the knobs of one call that are not part of the serialisable request.
+type Opt struct {
+	Ctx context.Context
+	// BeforeWrite, when set, runs before every body Write of the handler (the harness's scheduler parks the request there).
+	BeforeWrite func(sofar int, p []byte)
+}
+
+// writer is the ResponseWriter handed to the handler: a recorder, plus the broken-connection and scheduling behaviour.
+type writer struct {
+	rec       *httptest.ResponseRecorder
+	failAfter int
+	written   int
+	before    func(sofar int, p []byte)
+}
+
+var errBrokenPipe = errors.New("write tcp 192.0.2.1:1234: write: broken pipe")
+
+func (w *writer) Header() http.Header { return w.rec.Header() }
+func (w *writer) WriteHeader(c int)   { w.rec.WriteHeader(c) }
+func (w *writer) Write(p []byte) (int, error) {
+	if w.before != nil {
+		w.before(w.written, p)
+	}
+	if w.failAfter > 0 {
+		room := w.failAfter - w.written
+		if room <= 0 {
+			return 0, errBrokenPipe
+		}
+		if len(p) > room {
+			w.rec.Write(p[:room])
+			w.written += room
+			return room, errBrokenPipe
+		}
+	}
+	n, err := w.rec.Write(p)
+	w.written += n
+	return n, err
 }
 
 type Reply struct {
@@ -40,7 +86,9 @@ type Reply struct {
 }
 
 // Do runs one request through the handler, recovering panics.
-func Do(h http.Handler, r HTTPReq) (rep Reply) {
+func Do(h http.Handler, r HTTPReq) (rep Reply) { return DoOpt(h, r, Opt{}) }
+
+func DoOpt(h http.Handler, r HTTPReq, o Opt) (rep Reply) {
 	method := r.Method
 	if method == "" {
 		method = "GET"
@@ -63,6 +111,13 @@ func Do(h http.Handler, r HTTPReq) (rep Reply) {
 	}
 	req.Body = io.NopCloser(strings.NewReader(r.Body))
 	req.ContentLength = int64(len(r.Body))
+	if r.Chunked {
+		req.ContentLength = -1
+		req.TransferEncoding = []string{"chunked"}
+	}
+	if o.Ctx != nil {
+		req = req.WithContext(o.Ctx)
+	}
 	if r.ContentType != "" {
 		req.Header.Set("Content-Type", r.ContentType)
 	}
@@ -70,6 +125,10 @@ func Do(h http.Handler, r HTTPReq) (rep Reply) {
 		req.Header.Add(h[0], h[1])
 	}
 	rec := httptest.NewRecorder()
+	var rw http.ResponseWriter = rec
+	if r.FailWriteAfter > 0 || o.BeforeWrite != nil {
+		rw = &writer{rec: rec, failAfter: r.FailWriteAfter, before: o.BeforeWrite}
+	}
 	func() {
 		defer func() {
 			if p := recover(); p != nil {
@@ -77,7 +136,7 @@ func Do(h http.Handler, r HTTPReq) (rep Reply) {
 				rep.Stack = string(debug.Stack())
 			}
 		}()
-		h.ServeHTTP(rec, req)
+		h.ServeHTTP(rw, req)
 	}()
 	rep.Status = rec.Code
 	rep.Header = rec.Header()
